@@ -393,6 +393,11 @@ def driver_ops(sc):
         t[0] += 1
         return "%s%d" % (prefix, t[0])
 
+    def spell(word, i):
+        # command names are case-insensitive (RFC 3501 9): SELECT / EXAMINE are sent in
+        # upper, lower and mixed case (seeded C10-6: read-only decided on the raw word)
+        return [word, word.lower(), word.capitalize()][i % 3]
+
     def send(conn, line, what, prefix="a"):
         tg = tag(prefix)
         ops.append({"op": "send", "conn": conn, "data": "%s %s\r\n" % (tg, line), "until": "tag:" + tg})
@@ -416,7 +421,7 @@ def driver_ops(sc):
         k = o["k"]
         conn = o.get("conn", "A")
         if k == "select":
-            send("A", "%s %s" % ("EXAMINE" if o["ro"] else "SELECT", names[o["mb"]]), None)
+            send("A", "%s %s" % (spell("EXAMINE" if o["ro"] else "SELECT", si), names[o["mb"]]), None)
             sel, ro = o["mb"], o["ro"]
             continue
         if k == "dropspam":
@@ -482,7 +487,7 @@ def driver_ops(sc):
     raw({"op": "open", "conn": "B"})
     send("B", "LOGIN u@example.com pw", None, "i")
     for mi, mb in enumerate(sc["mailboxes"]):
-        send("B", "%s %s" % ("EXAMINE" if mi % 2 else "SELECT", names[mb]), ("first", mb), "b")
+        send("B", "%s %s" % (spell("EXAMINE" if mi % 2 else "SELECT", mi // 2), names[mb]), ("first", mb), "b")
         send("B", "FETCH 1:* (UID FLAGS)", ("fview", mb), "b")
         for ki, (txt, _, _) in enumerate(sc["keys"]):
             send("B", "SEARCH " + txt, ("search", mb, ki), "b")
